@@ -1,6 +1,16 @@
+mod c15;
+mod c16;
+mod c17;
+mod fx;
+mod pal;
+mod pyoracle;
+
 fn main() {
     let ctx = mc_core::Ctx::from_args();
     match ctx.prop.as_str() {
-        p => mc_core::report::machinery_failure(&format!("mc-math does not serve {p} yet")),
+        "C15" => c15::run(ctx),
+        "C16" => c16::run(ctx),
+        "C17" => c17::run(ctx),
+        p => mc_core::report::machinery_failure(&format!("mc-math does not serve {p}")),
     }
 }
